@@ -1,12 +1,14 @@
 #!/bin/bash
 # tools/rfall.sh <refactor N>: every check against HEAD + refactor N; prints only checks that alarm
 n=$1
-d=$(mktemp -d /tmp/rf-XXXX); git -C /repo archive HEAD src Cargo.toml benches tests | tar -x -C $d; cp /repo/Cargo.lock $d/
-(cd $d && git init -q . 2>/dev/null && git apply --whitespace=nowarn /verif/refactors/$n/patch.diff) || { echo "patch failed"; rm -rf $d; exit 3; }
+d=$(mktemp -d /tmp/rf-XXXX)
+/verif/tools/mktree.sh /verif/refactors/$n/patch.diff $d || { echo "patch failed"; rm -rf $d; exit 3; }
 cd /verif
 for i in $(seq -w 1 20); do
   out=$(BP_EVIDENCE_DIR=$d/evidence BP_REPO=$d ./check C$i 2>&1); rc=$?
-  if [ $rc -ne 0 ]; then echo "== C$i exit $rc"; echo "$out" | grep -E "rule=" | sort -u | cut -c1-${W:-200}; fi
+  [ -f $d/.oldbase ] && out=$(echo "$out" | python3 /verif/tools/oldbase_filter.py)
+  if [ $rc -ne 0 ] && echo "$out" | grep -q "rule="; then echo "== C$i exit $rc"; echo "$out" | grep -E "rule=" | sort -u | cut -c1-${W:-200}; fi
 done
+[ -f $d/.oldbase ] && echo "(old base)"
 rm -rf $d
 echo "rfall $n done"
